@@ -36,7 +36,7 @@ def pair_programs(draw):
     pairs = []
     for _ in range(npairs):
         kind = draw(st.sampled_from(['lui_addi', 'lui_lw', 'lui_sw', 'auipc_addi', 'auipc_jalr']))
-        ek = draw(st.sampled_from(['lit', 'lit', 'const', 'const_arith', 'label', 'pos', 'pos']))
+        ek = draw(st.sampled_from(['lit', 'lit', 'const', 'const_arith', 'paren_arith', 'label', 'pos', 'pos']))
         if ek in ('const', 'const_arith') and not cvals:
             ek = 'lit'
         if ek == 'lit':
@@ -46,6 +46,18 @@ def pair_programs(draw):
         elif ek == 'const_arith':
             e = ir.Bin(draw(st.sampled_from(['+', '-'])), ir.CRef(draw(st.sampled_from(sorted(cvals)))),
                        ir.Lit(draw(st.sampled_from([4, 0x800, 0x7ff, 0x1000, 2048, 1]))))
+        elif ek == 'paren_arith':
+            # grouping parentheses INSIDE the modifier that matter for precedence: %hi((K + 0x10) * 4), %lo(K - (0x700 - 0x80)), %hi(~(K | 3))
+            k0 = ir.CRef(draw(st.sampled_from(sorted(cvals)))) if cvals and draw(st.booleans()) else ir.Lit(draw(st.sampled_from([0x20000000, 0x40021000, 0x7ff, 0x12345, 0x7ffff000])))
+            shape = draw(st.integers(0, 2))
+            if shape == 0:
+                inner = ir.Bin('+', k0, ir.Lit(draw(st.sampled_from([0x10, 0x7f0, 1, 0x800]))))
+                e = ir.Bin('*', ir.Paren(inner), ir.Lit(draw(st.sampled_from([2, 4]))))
+            elif shape == 1:
+                inner = ir.Bin('-', ir.Lit(0x700), ir.Lit(draw(st.sampled_from([0x80, 0x701, 1]))))
+                e = ir.Bin('-', k0, ir.Paren(inner))
+            else:
+                e = ir.Bin('&', ir.Un('~', ir.Paren(ir.Bin('|', k0, ir.Lit(3)))), ir.Lit(0xffffffff))
         elif ek == 'label':
             e = ir.LRef(draw(st.sampled_from(labels)))
         else:
